@@ -5,7 +5,9 @@ observation line per op; same protocol as harness/c13.cpp.
 -/
 import SharkVerif.Model.Pareto
 import SharkVerif.Model.Hypervolume
-open SharkVerif.Pareto SharkVerif.HV
+import SharkVerif.Model.HV3D
+import SharkVerif.Model.DCSort
+open SharkVerif.Pareto SharkVerif.HV SharkVerif.DC
 
 def showL {α} [ToString α] (l : List α) : String :=
   "[" ++ ",".intercalate (l.map toString) ++ "]"
@@ -14,12 +16,6 @@ def showL {α} [ToString α] (l : List α) : String :=
 def chunk (m : Nat) : Nat → List Int → List Pt
   | 0, _ => []
   | n + 1, l => l.take m :: chunk m n (l.drop m)
-
-def insertAsc (x : Int) : List Int → List Int
-  | [] => [x]
-  | y :: ys => if x ≤ y then x :: y :: ys else y :: insertAsc x ys
-
-def sortAsc (l : List Int) : List Int := l.foldr insertAsc []
 
 def step (line : String) : String :=
   let toks := (line.trimAscii.toString.splitOn " ").filter (· ≠ "")
@@ -61,7 +57,7 @@ def step (line : String) : String :=
         -- rankSpec is a plain well-founded recursion (exponential without memoisation): run it on small
         -- inputs only; `fastSort_eq_rankSpec` makes the two interchangeable
         let spec := if S.length ≤ 9 then S.map (rankSpec S) else fast
-        s!"fast={showL fast} dc={showL spec} nds={showL spec}"
+        s!"fast={showL fast} dc={showL (dcSort S)} nds={showL (nds S)} spec={showL spec}"
       | "hv", m :: n :: nums =>
         let m := m.toNat
         let r := nums.take m
@@ -69,7 +65,7 @@ def step (line : String) : String :=
         let spec : Int := hvSpec S r
         let parts : List String :=
           (if m == 2 then [s!"hv2d={hv2d S r}"] else []) ++
-          (if m == 3 then [s!"hv3d={spec}"] else []) ++
+          (if m == 3 then [s!"hv3d={hv3d S r}"] else []) ++
           (if m ≥ 3 then [s!"hoy={spec}"] else []) ++
           (if S.length ≤ 12 then [s!"wfg={hvWfg S r}"] else []) ++ [s!"disp={spec}"]
         " ".intercalate parts
